@@ -13,6 +13,10 @@ import FrourosModel.Config
 import FrourosModel.Misc
 import FrourosModel.Tests2
 import FrourosModel.StreamKS
+import FrourosModel.Kuiper
+import FrourosModel.Kwargs
+import FrourosModel.Synth2
+import FrourosModel.Heap
 namespace Frouros
 open Wire
 
@@ -134,6 +138,12 @@ def cmdTests2 (args : List String) : String :=
   | "welch" :: n :: _m :: rest =>
     let (r, t) := splitAt' (parseFloats rest) n.toNat!
     s!"x{hexOfFloat (Tests2.welchT r t)} x{hexOfFloat (Tests2.welchDf r t)}"
+  | "kuiperp" :: n :: _m :: rest =>
+    -- KuiperTest as coded: (statistic, p-value) = `_kuiper(X_ref, X)`; the factorial of a non-integral N is the driver's Lanczos stand-in
+    let xs := parseFloats rest
+    let (r, t) := (xs.take n.toNat!, xs.drop n.toNat!)
+    let (st, p) := Kuiper.kuiper Kuiper.factFloat r t
+    s!"x{hexOfFloat st} x{hexOfFloat p}"
   | "kuiper" :: n :: _m :: rest =>
     let (r, t) := splitAt' (parseFloats rest) n.toNat!
     s!"{Tests2.kuiperV r t} {Tests2.ksD r t} {KS.hPlus r t} {KS.hMinus r t}"
@@ -213,8 +223,152 @@ def cmdDatasetHist (args : List String) : String :=
     let fileStr := match s.file with | none => "none" | some b => s!"{b}"
     s!"{" ".intercalate (outs.map showOut)} | {bit s.path} {fileStr}"
 
+/-- `kw <kind> <num_bins> <chunk_size|-> [key=int …]`: the keyword dictionary the permutation callback passes to the stand-alone
+statistic (`detector.statistical_kwargs`), keys sorted, for a detector constructed with these arguments (kernel named `k`) -/
+def cmdKwargs (args : List String) : String :=
+  match args with
+  | kind :: nb :: cs :: extra =>
+    let k : Option Kwargs.Kind := match kind with
+      | "psi" => some .psi | "hellinger" => some .hellinger | "bhattacharyya" => some .bhattacharyya
+      | "hi" => some .hiNormalizedComplement | "js" => some .js | "kl" => some .kl | "emd" => some .emd
+      | "energy" => some .energy | "mmd" => some .mmd | _ => none
+    match k with
+    | none => "bad-op"
+    | some k =>
+      let ex : Kwargs.Dict := extra.filterMap (fun w => match w.splitOn "=" with
+        | [a, b] => some (a, match b.toInt? with | some i => Kwargs.Val.int i | none => Kwargs.Val.str b)
+        | _ => none)
+      let c : Kwargs.Cfg := { kind := k, numBins := nb.toNat!, kernel := "k", chunkSize := cs.toNat?, extra := ex }
+      let d := Kwargs.construct true c
+      let showV : Kwargs.Val → String
+        | .none => "None" | .int i => toString i | .float r => r | .str s => s | .fn n => n
+      let items := (Kwargs.callbackKwargs d).map (fun kv => s!"{kv.1}={showV kv.2}")
+      ";".intercalate (items.toArray.qsort (· < ·)).toList
+  | _ => "bad-op"
+
+/-! ### object-level scenarios: the sharing graph of the heap model, to be compared with Python's `is` relations -/
+namespace HeapScenario
+open Frouros.Heap
+
+/-- trivial computations over `Nat` cells (the scenarios only observe WHICH cell is referenced from where) -/
+def sem : Sem Nat Nat Nat :=
+  { initOwn := id, initVars := id, stepOwn := fun _ o _ _ v => o + v, stepVars := fun _ _ x _ v => x + v,
+    stepModel := fun _ _ _ p v => p + v, snap := fun o _ v => o + v, fitAux := id, stat := fun a r x => a + r + x,
+    fires := fun a r => decide (r ≤ a) }
+
+structure Env where
+  h : Heap Nat := []
+  names : List (String × Ref) := []
+  failed : Bool := false
+
+def Env.ref? (e : Env) (n : String) : Option Ref := (e.names.find? (·.1 == n)).map (·.2)
+def Env.nameOf (e : Env) (r : Ref) : String := match e.names.find? (·.2 == r) with | some p => p.1 | none => "own"
+def Env.bind (e : Env) (n : String) (p : Ref × Heap Nat) : Env := { e with h := p.2, names := e.names ++ [(n, p.1)] }
+def Env.fail (e : Env) : Env := { e with failed := true }
+
+def cbArg (e : Env) (w : String) : Option CbArg :=
+  if w == "none" then some .none
+  else if w.startsWith "s=" then (e.ref? (w.drop 2).toString).map .single
+  else if w.startsWith "l=" then (e.ref? (w.drop 2).toString).map .list
+  else none
+
+/-- one scenario word (see `harness/props/c16.py::heap_scenarios`) -/
+def stepWord (e : Env) (w : String) : Env :=
+  if e.failed then e else
+  match w.splitOn ":" with
+  | ["cfg", n, m] =>
+    if m == "m" then
+      let (mr, h1) := alloc e.h (.data 0)
+      { (e.bind n (alloc h1 (.config 0 (some mr)))) with names := e.names ++ [(n ++ ".model", mr), (n, h1.length)] }
+    else e.bind n (alloc e.h (.config 0 none))
+  | ["cb", n] => e.bind n (alloc e.h (.callback ⟨.history, none, []⟩))
+  | ["rcb", n] => e.bind n (alloc e.h (.callback ⟨.resetTest 1000000, none, []⟩))
+  | ["lst", n, items] =>
+    let rs := ((items.splitOn ",").filter (· != "")).filterMap e.ref?
+    e.bind n (alloc e.h (.list rs))
+  | ["arr", n] => e.bind n (alloc e.h (.data 7))
+  | ["det", n, c, a] =>
+    match e.ref? c, cbArg e a with
+    | some cr, some arg => match newDetector sem e.h cr arg with | some p => e.bind n p | none => e.fail
+    | _, _ => e.fail
+  | ["bdet", n, a] =>
+    match cbArg e a with
+    | some arg => match newBatch e.h arg 0 0 with | some p => e.bind n p | none => e.fail
+    | none => e.fail
+  | ["upd", d] => match e.ref? d with
+    | some r => match update sem e.h r 1 with | some h => { e with h := h } | none => e.fail
+    | none => e.fail
+  | ["rst", d] => match e.ref? d with
+    | some r => match reset sem e.h r with | some h => { e with h := h } | none => e.fail
+    | none => e.fail
+  | ["fit", d, x] => match e.ref? d, e.ref? x with
+    | some r, some xr => match fit sem e.h r xr with | some h => { e with h := h } | none => e.fail
+    | _, _ => e.fail
+  | ["cmp", d, x] => match e.ref? d, e.ref? x with
+    | some r, some xr => match compare sem e.h r xr with | some (_, h) => { e with h := h } | none => e.fail
+    | _, _ => e.fail
+  | ["brst", d] => match e.ref? d with
+    | some r => match batchReset e.h r with | some h => { e with h := h } | none => e.fail
+    | none => e.fail
+  | _ => e.fail
+
+/-- the facts observed: for every detector which objects its fields reference (by scenario name, `own` = an object
+the scenario did not name, i.e. created by the constructor / reset), for every callback its back-reference and the
+number of entries it recorded -/
+def facts (e : Env) : String :=
+  let dets := e.names.filterMap (fun (n, r) => match getDet e.h r with | some d => some (n, r, d) | none => none)
+  let modelOf (d : Heap.Det Nat) (self : String) : String := match d.model with
+    | none => "-"
+    | some m =>
+      let byName := e.nameOf m
+      if byName != "own" then byName
+      else match dets.find? (fun (n, _, o) => n != self && o.model == some m) with
+        | some (n, _, _) => "shared:" ++ n
+        | none => "own"
+  let varsOf (d : Heap.Det Nat) (self : String) : String :=
+    match dets.find? (fun (n, _, o) => n != self && o.vars == d.vars) with | some (n, _, _) => "shared:" ++ n | none => "own"
+  let detFacts := dets.map (fun (n, _, d) =>
+    let items := match getList e.h d.callbacks with | some l => ",".intercalate (l.map e.nameOf) | none => "?"
+    s!"{n}[cfg={match d.config with | some c => e.nameOf c | none => "-"} cbs={e.nameOf d.callbacks} items={items} model={modelOf d n} vars={varsOf d n} xref={match d.xref with | some x => e.nameOf x | none => "-"}]")
+  let cbFacts := e.names.filterMap (fun (n, r) => match getCb e.h r with
+    | some c => some s!"{n}[det={match c.detector with | some d => e.nameOf d | none => "-"} n={c.hist.length}]"
+    | none => none)
+  " ".intercalate (detFacts ++ cbFacts)
+
+def run (words : List String) : String :=
+  let e := words.foldl stepWord {}
+  if e.failed then "raised" else facts e
+end HeapScenario
+
 def cmdSea (args : List String) : String :=
   match args with
+  | "ds" :: block :: noise :: n :: nf :: rest =>
+    -- `list(SEA(seed).generate_dataset(block, noise, n))` on the recorded draws: `nf` floats, then the coin flips
+    let fs := parseFloats (rest.take nf.toNat!)
+    let cs := parseNats (rest.drop nf.toNat!)
+    match Synth2.seaDataset (α := Float) block.toNat! ((floatOfHex? noise).getD 0.0) (n.toInt?.getD 0) ⟨fs, cs⟩ with
+    | .error e => errStr (some e)
+    | .ok none => "starved"
+    | .ok (some (ss, t)) => s!"{" ".intercalate (ss.map (fun s => toString s.y))} | {t.floats.length} {t.coins.length}"
+  | "dds" :: cls :: n :: rest =>
+    match Synth2.dummyDataset (α := Float) (cls.toInt?.getD 0) (n.toInt?.getD 0) ⟨parseFloats rest, []⟩ with
+    | .error e => errStr (some e)
+    | .ok none => "starved"
+    | .ok (some (ss, t)) => s!"{" ".intercalate (ss.map (fun s => toString s.y))} | {t.floats.length} {t.coins.length}"
+  | "pulls" :: np :: nf :: rest =>
+    -- interleaved `next()` calls on live SEA iterators sharing the generator: `np` pairs (block, noise), then floats, then coins
+    let np := np.toNat!
+    let pw := rest.take (2 * np)
+    let rec pairs (l : List String) (fuel : Nat) : List (Float × Float) :=
+      match fuel, l with
+      | fuel + 1, b :: z :: tl =>
+        ((match Synthetic.threshold (α := Float) b.toNat! with | some t => t | none => 0.0), (floatOfHex? z).getD 0.0) :: pairs tl fuel
+      | _, _ => []
+    let fs := parseFloats ((rest.drop (2 * np)).take nf.toNat!)
+    let cs := parseNats ((rest.drop (2 * np)).drop nf.toNat!)
+    match Synth2.seaPulls (pairs pw np) ⟨fs, cs⟩ with
+    | none => "starved"
+    | some (ss, t) => s!"{" ".intercalate (ss.map (fun s => toString s.y))} | {t.floats.length} {t.coins.length}"
   | ["label", block, noise, x0, x1, r, coin] =>
     let g (s : String) : Float := (floatOfHex? s).getD 0.0
     match Synthetic.threshold (α := Float) block.toNat! with
